@@ -83,7 +83,9 @@ pub fn catalogue() -> Vec<Entry> {
     // rounding section: non-dyadic weights (bit-precise C06, term-equality checks C17/C18)
     let mut r = vec![
         mk("r-triangle-2/3", cyc(3), &[(2, 3)], &[], &[0, 1, 2], &[3], Quick),
-        mk("r-kite-0.7", kite, &[(7, 10)], &[], &[0, 1], &[3], Quick),
+        mk("r-kite-0.7", kite.clone(), &[(7, 10)], &[], &[0, 1], &[3], Quick),
+        // non-dyadic mixed weights: running sums of several proper subgraphs end below 1
+        mk("r-kite-mixed", kite, &[(4, 5), (11, 20), (11, 10), (3, 4), (11, 20)], &[], &[0, 1], &[3], Quick),
         mk("r-mercedes-0.66", mercedes, &[(33, 50)], &[], &[0, 1, 2], &[2], Thorough),
     ];
     for e in r.iter_mut() {
